@@ -174,7 +174,7 @@ class Report:
             "known_findings_reported": ["%s %s" % (k["rule"], k["construct"]) for k in known_hit],
             "notes": self.notes,
             "checker_cmd": "python3 -m sa.check %s --tier %s" % (self.pid, self.tier),
-            "trusted_base": ["clang 14 front end + mem2reg", "bin/irfacts (LLVM API dump)", "sa/contract.py tables"],
+            "trusted_base": ["clang 14 front end", "bin/irspec: LLVM-14 always-inliner / mem2reg / instsimplify / jump threading / complete loop unrolling on the -O0 IR", "bin/irfacts (LLVM API dump)", "sa/contract.py tables"],
             "exhaustive": False,
         }
         cov.update(self.extra)
